@@ -217,6 +217,13 @@ def step (cfg : Cfg) (line : String) : String :=
     match (parts ";" evs).mapM parseSerfEv with
     | some es => showOuts (es.map (listenStep cfg))
     | none => bad
+  | ["serf", ls] => match csvNat ls with
+    | some ls =>
+      match listenMembers cfg ls 0, lookupNames cfg ls 0 with
+      | .error o, _ => o.show
+      | _, .error o => o.show
+      | .ok a, .ok b => s!"ok {a} {b}"
+    | none => bad
   | ["lookup", ls] => match csvNat ls with
     | some ls => (lookupOut cfg ls).show
     | none => bad
